@@ -10,6 +10,11 @@
 // file-level system calls (selected boundaries in the quick tier) is applied to a copy
 // of the store, a fresh process is started on it and runs a full pass; the outcome
 // must equal the uninterrupted one.
+//
+// Every observation also holds the three views of the in-memory metadata of rotated log
+// segments (global slice, reverse index, per-index slices), what FilterSegmentsByTime hands
+// to a query over every index and GetAllColNames; a second stream builds stores whose
+// segments of one index end on the same millisecond (coq/model/RetentionMem.v).
 package main
 
 import (
@@ -84,6 +89,7 @@ type Spec struct {
 	PassAfter  int64             `json:"pass_after,omitempty"`  // pass process: do not start the pass before T0+PassAfter ms
 	PassBefore int64             `json:"pass_before,omitempty"` // pass process: both passes must be over before T0+PassBefore ms
 	LateOff    int64             `json:"late_off,omitempty"`    // late_expiry: newest event of the segment that expires between the interrupted pass and its repetition
+	Ties       bool              `json:"ties,omitempty"`        // newest events of the segments of one index (and of the metrics segments) share one timestamp per age class
 	NoModel    bool              `json:"no_model,omitempty"`    // outcome depends on Go map iteration order inside one phase: oracle only
 	Refresh    bool              `json:"refresh,omitempty"`     // pass process: reload the in-memory metrics metadata after rotating Stale (what the 5 s refresh loop does)
 	PassOrgs   []int64           `json:"pass_orgs"`
@@ -116,8 +122,37 @@ type SegEntry struct {
 	Names    []string `json:"names,omitempty"`
 }
 
+// one entry of the in-memory metadata of rotated log segments
+type MemEnt struct {
+	Dir      string `json:"dir"`
+	Table    string `json:"table"`
+	Earliest uint64 `json:"earliest"`
+	Latest   uint64 `json:"latest"`
+	Org      int64  `json:"org"`
+}
+
+// one slice of tableSortedMetadata, slice order
+type TblObs struct {
+	Table string   `json:"table"`
+	Keys  []string `json:"keys"`
+}
+
+// FilterSegmentsByTime([Lo,Hi], [Table], Org) returned Keys
+type EnumRec struct {
+	Lo    uint64   `json:"lo"`
+	Hi    uint64   `json:"hi"`
+	Table string   `json:"table"`
+	Org   int64    `json:"org"`
+	Keys  []string `json:"keys"`
+}
+
 type Obs struct {
 	Tag      string              `json:"tag"`
+	All      []MemEnt            `json:"all"`  // allSegmentMicroIndex, slice order
+	Rev      []string            `json:"rev"`  // keys of segmentMetadataReverseIndex
+	Tbl      []TblObs            `json:"tbl"`  // tableSortedMetadata, tables by name
+	Enum     []EnumRec           `json:"enum"` // what queries are handed: all time and a window around the horizon
+	Cols     map[string][]string `json:"cols"` // index -> per-segment marker columns reported by GetAllColNames
 	Segmeta  []SegEntry          `json:"segmeta"`
 	Mmeta    []SegEntry          `json:"mmeta"`
 	Dirs     []string            `json:"dirs"`
@@ -217,7 +252,7 @@ func search(text string, org int64) ([]map[string]interface{}, []byte, error) {
 func ingestLog(s SegSpec, hz0 int64) error {
 	var sb strings.Builder
 	for j, o := range s.Offs {
-		fmt.Fprintf(&sb, "{\"index\":{\"_index\":\"%s\"}}\n{\"id\":\"s%de%d\",\"seg\":%d,\"timestamp\":%d}\n", s.Name, s.ID, j, s.ID, hz0+o)
+		fmt.Fprintf(&sb, "{\"index\":{\"_index\":\"%s\"}}\n{\"id\":\"s%de%d\",\"seg\":%d,\"k%d\":1,\"timestamp\":%d}\n", s.Name, s.ID, j, s.ID, s.ID, hz0+o)
 	}
 	n, _, err := eswriter.HandleBulkBody([]byte(sb.String()), nil, 0, s.Org, false)
 	if err != nil {
@@ -400,6 +435,7 @@ func observe(tag string, spec *Spec, hostRoot string) Obs {
 	}
 	sort.Strings(o.Mem)
 	sort.Strings(o.MMem)
+	observeViews(&o, spec, hostRoot)
 	// metrics: datapoints returned per metric name
 	segByID := map[string]SegSpec{}
 	for _, s := range spec.allSegs() {
@@ -431,6 +467,79 @@ func observe(tag string, spec *Spec, hostRoot string) Obs {
 		o.Met[name] = n
 	}
 	return o
+}
+
+const allTimeHi = uint64(math.MaxUint64)
+
+var reMarkerCol = regexp.MustCompile(`^k\d+$`)
+
+// the three views of the in-memory metadata of rotated log segments and what they give to queries
+func observeViews(o *Obs, spec *Spec, hostRoot string) {
+	key := func(segKey string) string { return rel(hostRoot, path.Dir(segKey)) }
+	for _, smi := range segmetadata.GetAllSegmentMicroIndexForTest() {
+		o.All = append(o.All, MemEnt{Dir: key(smi.SegmentKey), Table: smi.VirtualTableName, Earliest: smi.EarliestEpochMS, Latest: smi.LatestEpochMS, Org: smi.OrgId})
+	}
+	for k := range segmetadata.GetSegmentMetadataReverseIndexForTest() {
+		o.Rev = append(o.Rev, key(k))
+	}
+	sort.Strings(o.Rev)
+	tsm := segmetadata.GetTableSortedMetadata()
+	tables := map[string]bool{}
+	for t, sl := range tsm {
+		tables[t] = true
+		to := TblObs{Table: t, Keys: []string{}}
+		for _, smi := range sl {
+			to.Keys = append(to.Keys, key(smi.SegmentKey))
+		}
+		o.Tbl = append(o.Tbl, to)
+	}
+	sort.Slice(o.Tbl, func(i, j int) bool { return o.Tbl[i].Table < o.Tbl[j].Table })
+	for _, sg := range spec.allSegs() {
+		if sg.Kind == "log" {
+			tables[sg.Name] = true
+		}
+	}
+	names := make([]string, 0, len(tables))
+	for t := range tables {
+		names = append(names, t)
+	}
+	sort.Strings(names)
+	hz0 := uint64(spec.hz0())
+	ranges := [][2]uint64{{0, allTimeHi}, {hz0 - 700000, hz0 + 400000}}
+	o.Cols = map[string][]string{}
+	for _, t := range names {
+		for _, org := range spec.Orgs {
+			for _, rg := range ranges {
+				res, _, _ := segmetadata.FilterSegmentsByTime(&dtu.TimeRange{StartEpochMs: rg[0], EndEpochMs: rg[1]}, []string{t}, org)
+				rec := EnumRec{Lo: rg[0], Hi: rg[1], Table: t, Org: org, Keys: []string{}}
+				for _, m := range res {
+					for k := range m {
+						rec.Keys = append(rec.Keys, key(k))
+					}
+				}
+				sort.Strings(rec.Keys)
+				o.Enum = append(o.Enum, rec)
+			}
+		}
+		cols := []string{}
+		for _, c := range segmetadata.GetAllColNames([]string{t}) {
+			if reMarkerCol.MatchString(c) {
+				cols = append(cols, c)
+			}
+		}
+		sort.Strings(cols)
+		o.Cols[t] = cols
+	}
+}
+
+// segments of index table (org) that a query over all time is handed
+func enumeratedAllTime(o *Obs, table string, org int64) []string {
+	for _, e := range o.Enum {
+		if e.Table == table && e.Org == org && e.Lo == 0 && e.Hi == allTimeHi {
+			return e.Keys
+		}
+	}
+	return nil
 }
 
 func queryMetric(name string, lo, hi uint32, org int64) (n int, err error) {
@@ -1089,6 +1198,40 @@ func coqOutcome(in *interner, o *Obs, targets []string) string {
 	return fmt.Sprintf("(mkout %s %s\n     %s\n     %s %s %s)", in.paths(sm), in.paths(mm), in.paths(visibleDirs(o.Dirs, targets)), in.paths(o.Mem), in.paths(o.MMem), in.vt(o.Vt))
 }
 
+func (in *interner) tblKeys(l []TblObs) string {
+	items := make([]string, len(l))
+	for i, t := range l {
+		items[i] = fmt.Sprintf("(%d, %s)", in.table(t.Table), in.paths(t.Keys))
+	}
+	return vhlib.CoqList(items)
+}
+
+// the three views before a pass, entries with their fields
+func coqMM(in *interner, o *Obs) string {
+	all := make([]string, len(o.All))
+	for i, e := range o.All {
+		all[i] = fmt.Sprintf("me %s %d %d %d %s", in.path(e.Dir), in.table(e.Table), e.Earliest, e.Latest, vhlib.CoqZ(e.Org))
+	}
+	return fmt.Sprintf("(mm_of %s\n     %s\n     %s)", vhlib.CoqList(all), in.paths(o.Rev), in.tblKeys(o.Tbl))
+}
+
+// the three views after a pass, keys only
+func coqViews(in *interner, o *Obs) string {
+	all := make([]string, len(o.All))
+	for i, e := range o.All {
+		all[i] = e.Dir
+	}
+	return fmt.Sprintf("(mkviews %s %s\n     %s)", in.paths(all), in.paths(o.Rev), in.tblKeys(o.Tbl))
+}
+
+func coqEnum(in *interner, o *Obs) string {
+	items := make([]string, len(o.Enum))
+	for i, e := range o.Enum {
+		items[i] = fmt.Sprintf("(%d, %d, %d, %s%%Z, %s)", e.Lo, e.Hi, in.table(e.Table), vhlib.CoqZ(e.Org), in.paths(e.Keys))
+	}
+	return vhlib.CoqList(items)
+}
+
 func coqTEff(in *interner, e TEff) string {
 	switch e.Kind {
 	case "rm":
@@ -1313,6 +1456,19 @@ func evalObs(spec *Spec, dirOf map[int]string, o *Obs, passed []int64, where str
 		if gone && found > 0 {
 			add("deleted_still_searchable", desc+fmt.Sprintf(" dir %s removed but %d events returned", d, found))
 		}
+		if s.Kind == "log" {
+			// what the query side is handed for the index (FilterSegmentsByTime over all time, GetAllColNames)
+			enumerated := contains(enumeratedAllTime(o, s.Name, s.Org), d)
+			if gone && enumerated {
+				add("deleted_segment_still_enumerated_for_queries", desc+fmt.Sprintf(" dir %s removed, but a query over index %s (org %d, all time) is still handed the segment; segments of the index with the same newest timestamp: %v", d, s.Name, s.Org, tiedWith(spec, s)))
+			}
+			if !gone && isListed && !enumerated {
+				add("survivor_not_enumerated_for_queries", desc+fmt.Sprintf(" dir %s exists and is listed, but a query over index %s (org %d, all time) is not handed the segment", d, s.Name, s.Org))
+			}
+			if mk := fmt.Sprintf("k%d", s.ID); gone && contains(o.Cols[s.Name], mk) {
+				add("deleted_segment_columns_still_reported", desc+fmt.Sprintf(" dir %s removed, but column %s, which only its events had, is still reported for index %s", d, mk, s.Name))
+			}
+		}
 	}
 	for _, e := range o.Segmeta {
 		if !known[e.Dir] {
@@ -1334,6 +1490,19 @@ func evalObs(spec *Spec, dirOf map[int]string, o *Obs, passed []int64, where str
 		add("query_error_after_pass", e)
 	}
 	return fs
+}
+
+// ids of the other rotated log segments of the same index (any org) whose newest event has the same timestamp
+func tiedWith(spec *Spec, s SegSpec) []int {
+	out := []int{}
+	for _, rd := range spec.Rounds {
+		for _, t := range rd.Segs {
+			if t.Kind == "log" && t.Name == s.Name && t.ID != s.ID && maxOff(t) == maxOff(s) {
+				out = append(out, t.ID)
+			}
+		}
+	}
+	return out
 }
 
 func dirsOfEntries(l []SegEntry) []string {
@@ -1405,6 +1574,14 @@ func compareObs(prefix string, ref, o *Obs, where string, ordered bool) []fail {
 			add("_vtables", "index names of org "+org+" differ: "+diffStrs(ref.Vt[org], o.Vt[org]))
 		}
 	}
+	for _, e := range ref.Enum {
+		if e.Lo != 0 || e.Hi != allTimeHi {
+			continue
+		}
+		if got := enumeratedAllTime(o, e.Table, e.Org); !sameStrs(e.Keys, got) {
+			add("_enumeration", fmt.Sprintf("segments handed to a query over index %s (org %d, all time) differ: %s", e.Table, e.Org, diffStrs(e.Keys, got)))
+		}
+	}
 	for n, c := range ref.Met {
 		if (c > 0) != (o.Met[n] > 0) {
 			add("_metrics_search", fmt.Sprintf("metric %s: %d datapoints vs %d", n, c, o.Met[n]))
@@ -1441,8 +1618,35 @@ func genOffs(r *vhlib.Rng, class int) []int64 {
 	return offs
 }
 
+// ties: the newest events of the segments of one index share one timestamp per age class (a batch
+// stamped with one time, replayed data), so their LatestEpochMS are equal: the sort key of the
+// in-memory slices does not identify a segment
+func tieOffs(offs []int64, class int, tieOld, tieNew int64) []int64 {
+	out := make([]int64, len(offs))
+	switch class {
+	case 0:
+		for j := range offs {
+			out[j] = tieOld - int64(j)*1000
+		}
+	case 1:
+		for j := range offs {
+			out[j] = tieNew - int64(j)*1000
+		}
+	default:
+		out[0] = offs[0]
+		for j := 1; j < len(offs); j++ {
+			out[j] = tieNew - int64(j-1)*1000
+		}
+	}
+	return out
+}
+
 func genSpec(r *vhlib.Rng, kind string, withMetrics, multiOrg bool) *Spec {
-	s := &Spec{Kind: kind, Hours: vhlib.Pick(r, []int{1, 24, 360, 720}), PassOrgs: []int64{0}, Orgs: []int64{0}}
+	return genSpecT(r, kind, withMetrics, multiOrg, false)
+}
+
+func genSpecT(r *vhlib.Rng, kind string, withMetrics, multiOrg, ties bool) *Spec {
+	s := &Spec{Kind: kind, Hours: vhlib.Pick(r, []int{1, 24, 360, 720}), PassOrgs: []int64{0}, Orgs: []int64{0}, Ties: ties}
 	if multiOrg {
 		s.Orgs = []int64{0, 1}
 		switch r.Intn(5) {
@@ -1457,13 +1661,30 @@ func genSpec(r *vhlib.Rng, kind string, withMetrics, multiOrg bool) *Spec {
 	id := 0
 	nrounds := r.Range(2, 3)
 	indexes := []string{"ixa", "ixb", "ixc"}
+	tieOld, tieNew, orgBase := map[string]int64{}, map[string]int64{}, map[string]int{}
+	pIndex := 65
+	if ties {
+		nrounds = r.Range(3, 4)
+		pIndex = 85
+		for _, ix := range append([]string{"m"}, indexes...) {
+			tieOld[ix] = vhlib.Pick(r, olderOffs)
+			tieNew[ix] = vhlib.Pick(r, newerOffs[1:])
+			orgBase[ix] = r.Intn(2)
+		}
+	}
+	class := func() int {
+		if ties && r.Chance(45) {
+			return 0 // more expired segments: only those are deleted one by one
+		}
+		return r.Intn(3)
+	}
 	for ri := 0; ri < nrounds; ri++ {
 		rd := Round{Rotate: true}
 		if ri == nrounds-1 && r.Chance(40) && !multiOrg {
 			rd.Rotate = false // found unrotated by the next process, which rotates it
 		}
 		for _, ix := range indexes {
-			if !r.Chance(65) {
+			if !r.Chance(pIndex) {
 				continue
 			}
 			id++
@@ -1471,12 +1692,26 @@ func genSpec(r *vhlib.Rng, kind string, withMetrics, multiOrg bool) *Spec {
 			if multiOrg && r.Chance(45) {
 				org = 1
 			}
-			rd.Segs = append(rd.Segs, SegSpec{ID: id, Kind: "log", Name: ix, Org: org, Offs: genOffs(r, r.Intn(3))})
+			cl := class()
+			offs := genOffs(r, cl)
+			if ties {
+				offs = tieOffs(offs, cl, tieOld[ix], tieNew[ix])
+				if multiOrg {
+					// the same index name in both orgs, round by round: one table slice holds tied segments of
+					// both orgs and a pass for one org removes some of them only
+					org = int64((ri + orgBase[ix]) % 2)
+				}
+			}
+			rd.Segs = append(rd.Segs, SegSpec{ID: id, Kind: "log", Name: ix, Org: org, Offs: offs})
 		}
 		if withMetrics {
 			for k := 0; k < r.Range(1, 2); k++ {
 				id++
-				offs := genOffs(r, r.Intn(3))
+				cl := class()
+				offs := genOffs(r, cl)
+				if ties {
+					offs = tieOffs(offs, cl, tieOld["m"], tieNew["m"])
+				}
 				for i := range offs {
 					offs[i] = offs[i] / 1000 * 1000
 				}
@@ -1554,6 +1789,23 @@ func genLateExpiry(r *vhlib.Rng, lateOff int64) *Spec {
 	return s
 }
 
+// the same index name in two orgs, every segment of it expired, one cycle of passes for org 0 and org 1 and
+// a second cycle: the name of the org passed first is dropped by the second cycle only (sharedIndexNames)
+func genSharedName(r *vhlib.Rng) *Spec {
+	s := &Spec{Kind: "plain", Hours: 24, PassOrgs: []int64{0, 1}, Orgs: []int64{0, 1}}
+	s.Rounds = []Round{
+		{Rotate: true, Segs: []SegSpec{
+			{ID: 1, Kind: "log", Name: "ixc", Org: 0, Offs: []int64{-3600000}},
+			{ID: 2, Kind: "log", Name: "ixa", Org: 0, Offs: []int64{-600000, 600000}},
+		}},
+		{Rotate: true, Segs: []SegSpec{
+			{ID: 3, Kind: "log", Name: "ixc", Org: 1, Offs: []int64{-3600000}},
+			{ID: 4, Kind: "log", Name: "ixb", Org: 1, Offs: []int64{3600000}},
+		}},
+	}
+	return s
+}
+
 func genLiveTT(r *vhlib.Rng) *Spec {
 	s := &Spec{Kind: "live_tagstree", Hours: 24, PassOrgs: []int64{0}, Orgs: []int64{0}, Refresh: true}
 	s.Rounds = []Round{{Rotate: true, Segs: []SegSpec{
@@ -1585,6 +1837,9 @@ type scenarioResult struct {
 	Kept     int
 	TraceLen int
 	Sample   interface{}
+	// index names that a repeated cycle over several orgs dropped because another org's segments had
+	// the same index name when the org's own pass ran (see sharedIndexNames)
+	SharedNames int
 }
 
 func chooseBoundaries(r *vhlib.Rng, ops []Op, count []int, hostRoot string, targets []string, thorough bool) []int {
@@ -1703,7 +1958,8 @@ func runScenario(idx int, spec *Spec, r *vhlib.Rng, cfg vhlib.Config) *scenarioR
 	}
 	res.Fails = append(res.Fails, evalObs(spec, dirOf, post, spec.PassOrgs, "after the pass", refWin)...)
 	res.Fails = append(res.Fails, evalObs(spec, dirOf, post2, spec.PassOrgs, "after the repeated pass", refWin)...)
-	res.Fails = append(res.Fails, compareObs("repeat_differs", post, post2, "second pass in the same process", true)...)
+	res.Fails = append(res.Fails, sharedIndexNames(spec, pre, post, post2, res,
+		compareObs("repeat_differs", post, post2, "second pass in the same process", true))...)
 	if spec.Kind == "live_tagstree" && len(ref.Obs) == 4 {
 		o4 := &ref.Obs[3]
 		for _, l := range spec.Live {
@@ -1899,11 +2155,92 @@ func runScenario(idx int, spec *Spec, r *vhlib.Rng, cfg vhlib.Config) *scenarioR
 	if late {
 		hz2 = spec.hz0() + spec.LateOff + 1000
 	}
-	res.CoqTerm = fmt.Sprintf("%s %s\n  %d %d %s (%s, %s)\n  %s\n  %s\n  %s\n  %s", checker, storeTerm, spec.hz0(), hz2, vhlib.CoqList(orgs),
-		in.paths(order), vhlib.CoqList(nol), traceTerm, coqOutcome(in, post, targets), coqOutcome(in, post2, targets), vhlib.CoqListNL(tl))
+	var vts []string
+	for _, t := range trials {
+		vts = append(vts, fmt.Sprintf("(%s,\n    %s,\n    %s)", coqMM(in, t.Pre), coqViews(in, t.Post), coqEnum(in, t.Post)))
+	}
+	orderTerm := fmt.Sprintf("(%s, %s)", in.paths(order), vhlib.CoqList(nol))
+	res.CoqTerm = fmt.Sprintf("let st := %s in\n  let tr := %s in\n  %s st\n  %d %d %s %s\n  %s\n  %s\n  %s\n  tr\n  ++ check_views st %d %d %s %s tr\n  %s\n  %s\n  %s\n  %s\n  %s\n  %s",
+		storeTerm, vhlib.CoqListNL(tl), checker, spec.hz0(), hz2, vhlib.CoqList(orgs), orderTerm,
+		traceTerm, coqOutcome(in, post, targets), coqOutcome(in, post2, targets),
+		spec.hz0(), hz2, vhlib.CoqList(orgs), orderTerm,
+		coqMM(in, pre), coqViews(in, post), coqViews(in, post2), coqEnum(in, pre), coqEnum(in, post), vhlib.CoqListNL(vts))
 	res.Sample = map[string]interface{}{"kind": spec.Kind, "hours": spec.Hours, "rounds": spec.Rounds, "extras": spec.Extras, "pass_orgs": spec.PassOrgs,
 		"deleted": res.Deleted, "kept": res.Kept, "trace_ops": res.TraceLen, "interruption_points": res.NTrials}
 	return res
+}
+
+// A cycle of passes for several orgs (pass for o1, then for o2) followed by a second cycle: DeleteEmptyIndices
+// keeps an index name of the org while ANY org's segmeta.json line uses that name.  When orgs o1 and o2
+// both have an index of the same name and all its segments are expired, the pass for o1 keeps the (now
+// empty) name because o2's lines still exist, the pass for o2 removes them, and only the next pass for o1
+// drops the name.  Every single pass is idempotent on the store it finds; the second pass for o1 runs on a
+// store that the pass for o2 has changed.  The model predicts exactly this (the outcome of the repeated
+// cycle is compared inside Coq), so such a difference is no failure of "repeated pass, same outcome";
+// any other difference of the index names stays one.
+func sharedIndexNames(spec *Spec, pre, post, post2 *Obs, res *scenarioResult, fs []fail) []fail {
+	hasVt := false
+	for _, f := range fs {
+		if f.Class == "repeat_differs_vtables" {
+			hasVt = true
+		}
+	}
+	if !hasVt || len(spec.PassOrgs) < 2 {
+		return fs
+	}
+	pos := func(org int64) int {
+		for i, o := range spec.PassOrgs {
+			if o == org {
+				return i
+			}
+		}
+		return -1
+	}
+	n := 0
+	for _, org := range spec.Orgs {
+		k := strconv.FormatInt(org, 10)
+		for _, name := range post2.Vt[k] {
+			if !contains(post.Vt[k], name) {
+				return fs // a name appeared
+			}
+		}
+		for _, name := range post.Vt[k] {
+			if contains(post2.Vt[k], name) {
+				continue
+			}
+			for _, e := range post.Segmeta {
+				if e.Table == name {
+					return fs // still used after the first cycle
+				}
+			}
+			for _, x := range spec.Extras {
+				if x.Name == name {
+					return fs
+				}
+			}
+			later := false
+			for _, e := range pre.Segmeta {
+				if e.Table == name && e.Org != org && pos(e.Org) > pos(org) && pos(org) >= 0 && !listed(post.Segmeta, e.Dir) {
+					later = true
+				}
+			}
+			if !later {
+				return fs
+			}
+			n++
+		}
+	}
+	if n == 0 {
+		return fs
+	}
+	res.SharedNames += n
+	var out []fail
+	for _, f := range fs {
+		if f.Class != "repeat_differs_vtables" {
+			out = append(out, f)
+		}
+	}
+	return out
 }
 
 // failures of an interruption trial that belong to a known mechanism get that mechanism's class
@@ -2037,6 +2374,8 @@ func main() {
 	sum := vhlib.NewSummary("one evaluation = one observed store after a retention pass (uninterrupted, repeated, or interrupted at a file-operation boundary + restart + full pass); " +
 		"stores of 2-9 log segments (3 indexes, rotated / found unrotated at restart / unrotated) and 0-6 metrics segments with event times " +
 		"1 s .. 2 h older and 5 min .. 1 day newer than the horizon, oldest-older/newest-newer mixes, retention 1/24/360/720 h, passes for org 0, 1 or both; " +
+		"a second stream of stores whose segments of one index end on the same millisecond (3-4 rounds, same index name in two orgs in every second store); " +
+		"observed per store: the three in-memory views (global slice, reverse index, per-index slices), FilterSegmentsByTime over all time and a window, GetAllColNames; " +
 		"non-trivial = the pass removed at least one segment and kept at least one; distinct by (scenario, interruption point)")
 	r := vhlib.NewRng(cfg.Seed)
 
@@ -2072,6 +2411,22 @@ func main() {
 	rngs = append(rngs, r.Fork())
 	specs = append(specs, genStale(r.Fork(), false), genStale(r.Fork(), true), genLiveTT(r.Fork()), genLonelyMetric(r.Fork()))
 	rngs = append(rngs, r.Fork(), r.Fork(), r.Fork(), r.Fork())
+	// stores whose segments share their newest timestamp (per index and age class); every second one
+	// with the same index names in two orgs and a pass for one of them
+	nTiePlain, nTieInt := 4, 1
+	if cfg.Thorough() {
+		nTiePlain, nTieInt = 40, 12
+	}
+	for i := 0; i < nTiePlain; i++ {
+		specs = append(specs, genSpecT(r.Fork(), "plain", i%4 == 3, i%2 == 0, true))
+		rngs = append(rngs, r.Fork())
+	}
+	for i := 0; i < nTieInt; i++ {
+		specs = append(specs, genSpecT(r.Fork(), "interrupt", i%3 == 1, false, true))
+		rngs = append(rngs, r.Fork())
+	}
+	specs = append(specs, genSharedName(r.Fork()))
+	rngs = append(rngs, r.Fork())
 	results := make([]*scenarioResult, len(specs))
 	var wg sync.WaitGroup
 	sem := make(chan struct{}, 8)
@@ -2099,6 +2454,28 @@ func main() {
 			continue
 		}
 		sum.Count("scenario_" + res.Spec.Kind)
+		if res.Spec.Ties {
+			sum.Count("scenario_with_tied_newest_timestamps")
+		}
+		for k := 0; k < res.SharedNames; k++ {
+			sum.Count("empty_index_name_shared_with_a_later_org_dropped_by_the_next_cycle")
+		}
+		{
+			// groups of rotated log segments of one index that end on the same millisecond
+			groups := map[string]int{}
+			for _, rd := range res.Spec.Rounds {
+				for _, sg := range rd.Segs {
+					if sg.Kind == "log" {
+						groups[fmt.Sprintf("%s/%d", sg.Name, maxOff(sg))]++
+					}
+				}
+			}
+			for _, n := range groups {
+				if n >= 2 {
+					sum.Count("tied_latest_group_in_one_index")
+				}
+			}
+		}
 		sum.Count(fmt.Sprintf("retention_hours_%d", res.Spec.Hours))
 		nontrivial := res.Deleted > 0 && res.Kept > 0
 		sum.Eval(fmt.Sprintf("sc%d", i), nontrivial)
@@ -2127,7 +2504,7 @@ func main() {
 		}
 		if !res.Spec.NoModel {
 			terms = append(terms, fmt.Sprintf("tag %d (%s)", i, res.CoqTerm))
-			termChecks = append(termChecks, 4+2*res.NTrials) // wf, pass, repeated pass, trace, per interruption point: restart state and outcome
+			termChecks = append(termChecks, 8+4*res.NTrials) // wf, pass, repeated pass, trace, in-memory views (before, after, repeated, enumerations), per interruption point: restart state and outcome, views after restart and after the pass
 		}
 	}
 	// shard the case files: at most 6 scenarios and ~60 KB per file (coqc's parser recurses on the term)
